@@ -14,44 +14,44 @@ CHECKS = {
  "C01": dict(engine="projsim", level="exploration", section="4 C01", technique="model-based property testing (rapid): generated projects x generated edit/build histories, differential against a from-scratch build of the same tree",
    text="Whole dawn projects (multi-package DAGs, helpers, closures, defaults, globals, flags, source dirs, generated files) and histories of edits interleaved "
         "with sub-target, failing, dry, always, child-process and interrupted builds (the child dies at the n-th hit of a named point in bodies, record writes or the index write) run through the real Load/Run; every body writes a digest of all its inputs, so a "
-        "stale target shows as a byte difference against a clean twin build. Also: a dependent of a target that executed in a build executes after it.",
+        "stale target shows as a byte difference against a clean twin build. Also: a dependent of a target that executed in a build executes after it. Edits include integer constants moved by a power of two (2^8 .. 2^64) around the widths of fixed-size encodings; a quarter of the projects use file and directory names with characters that URL escaping, label syntax and shells treat specially.",
    note="Bodies use only the injected vf builtins and depend only on inputs the property lists; <= 4 packages, <= 8 targets, <= 28 operations per history."),
  "C02": dict(engine="projsim", level="exploration", section="4 C02", technique="metamorphic property testing (rapid): build, apply no-op-class operations, rebuild in a fresh process under a generated package load order; nothing may execute",
    text="Generated projects are built in a child process, changed only by no-op-class operations (touch, same-content rewrite, recreate, comments, blank lines, "
         "docstrings, edits outside the closure in other packages, dry run, GC, index-only load), and rebuilt in another child process with a generated package "
-        "load order; no body may run and no TargetEvaluating may be reported in the closure. A second check runs C01-style histories and flags any body that executes in a successful ordinary build although, by the harness' own bookkeeping, none of its inputs changed since its last successful execution and no dependency executed in this build.",
+        "load order; no body may run and no TargetEvaluating may be reported in the closure. A second check runs C01-style histories and flags any body that executes in a successful ordinary build although, by the harness' own bookkeeping, none of its inputs changed since its last successful execution and no dependency executed in this build. Histories mix builds on one long-lived reloaded Project (watch mode) with builds from fresh loads and other processes.",
    note="Load order is controlled at package granularity (gates in generated BUILD files); same-file edits of other targets are not claimed as no-ops."),
  "C03": dict(engine="projsim", level="fault_enumeration", section="4 C03", technique="fault injection over generated scenarios (rapid): enumerate the crash points of the faulty build, kill a child process at each, recover in new loads, differential against a from-scratch build",
    text="The faulty build of each generated scenario is first run in counting mode to list every crash-point occurrence (body start/middle/end, record "
         "temp-file create / encode / rename, failure records, load-time refresh, index create / write); each selected (quick: up to 6, thorough: all) point "
         "kills a child process there; afterwards the project must load (index preferred or not) without touching files, interrupted or failed targets must "
-        "re-execute, and the recovery and final builds must equal a from-scratch build byte for byte. A failing-body variant is checked the same way.",
+        "re-execute, and the recovery and final builds must equal a from-scratch build byte for byte. A failing-body variant is checked the same way. A process that dies in the middle of the in-place write of index.json is modelled by cutting the complete file to k/17 of its bytes (4 cuts in quick, 16 in thorough).",
    note="Crash = process exit at a Go-level boundary named by a verif-tagged hook; power-loss effects (torn writes, reordered renames) are not modelled."),
  "C04": dict(engine="cosched", level="exploration", section="4 C04", technique="schedule exploration: generated graphs x generated schedules on a cooperative token scheduler (rapid), plus delay-injection runs and -race in thorough",
    text="The real runner.Run executes generated acyclic graphs with recording Targets while a cooperative scheduler that owns every scheduling point of "
         "runner.go takes each decision from a generated choice vector (deterministic, shrinkable, exact deadlock detection); a third of the cases run free "
-        "with generated delays; free-running fan-in graphs align 2-8 dependents at a barrier right before they request the same fresh targets. Oracle: once-only load/evaluate, completion before continuation, actual outcomes handed over, Run's result. A project-level check builds generated dawn projects whose dependency labels use every spelling (incl. target://pkg:name) through the real Load/Run and counts body starts and completion events per label.",
+        "with generated delays; free-running fan-in graphs align 2-8 dependents at a barrier right before they request the same fresh targets. Oracle: once-only load/evaluate, completion before continuation, actual outcomes handed over, Run's result. A project-level check builds generated dawn projects whose dependency labels use every spelling (incl. target://pkg:name) through the real Load/Run and counts body starts and completion events per label. Wide requests: one request of 33-1025 dependencies with failing and unloadable ones early, late or anywhere.",
    note="Interleavings inside windows without a scheduling point are only reached by the delay-injection mode and -race (thorough); graphs <= 14 nodes."),
  "C05": dict(engine="cosched", level="exploration", section="4 C05", technique="schedule exploration (rapid) with exact deadlock/livelock detection, bounded-exhaustive schedules and PCT priority schedules for a catalogue of tiny graphs, limits 1-4 and 16 via CPU affinity",
    text="Generated digraphs (self-loops, overlapping cycles, cycles off the root) run on the real runner under generated fair schedules at parallelism limits "
         "1,2,3,4,16; termination is decided by the scheduler (confirmed all-parked dump = deadlock, >400k scheduling points = livelock), and the cycle "
         "error must appear exactly when the reachable graph is cyclic. A catalogue of 8 tiny graphs is run under every schedule with <=1 (quick) / <=2 "
-        "(thorough) preemptions (plain or parking the preempted goroutine) and under generated PCT priority schedules.",
+        "(thorough) preemptions (plain or parking the preempted goroutine) and under generated PCT priority schedules. Graphs may contain dependencies that name nothing (their load fails): the build still terminates and a cyclic error appears only for cyclic graphs.",
    note="Termination is decided on generated graphs and fair schedules only; graphs <= 10 nodes and <= 4096 paths (the runner's cycle walk is not memoised)."),
  "C06": dict(engine="cosched", level="exploration", section="4 C06", technique="schedule exploration (rapid): generated load graphs x generated schedules on the cooperative scheduler over the real dawn.Load, exact deadlock detection",
    text="Generated projects (packages, shared helper modules, chains, diamonds, self-loads, 2..n-cycles) are loaded by the real dawn.Load while the cooperative "
         "scheduler owns the scheduling points of package and module loading; a third of the cases run free with generated delays. Oracle: Load returns, each "
-        "module executed once, acyclic => expected targets and flags, cyclic => cyclic-dependency error. A catalogue of 8 load graphs runs under every run-until-block schedule with <=1 preemption (<=2 for the long rings; all in thorough), an aligned free-running stress releases the mutual loads from a barrier, and reload histories hold every Reload of one long-lived Project to the oracle of a fresh load.",
+        "module executed once, acyclic => expected targets and flags, cyclic => cyclic-dependency error. A catalogue of 8 load graphs runs under every run-until-block schedule with <=1 preemption (<=2 for the long rings; all in thorough), an aligned free-running stress releases the mutual loads from a barrier, and reload histories hold every Reload of one long-lived Project to the oracle of a fresh load. Load graphs may name module files that do not exist (also in reload histories): Load returns an error, it never hangs.",
    note="Starlark execution between load statements is atomic under the scheduler; <= 4 packages and <= 5 helper modules."),
  "C07": dict(engine="starval", level="exploration", section="4 C07", technique="property-based testing (rapid): round-trip / isomorphism oracle over generated values",
    text="Generated-value search (rapid, shrinking) against a structural-isomorphism oracle that also compares types and aliasing, plus a pair oracle "
         "(one-leaf mutations must not decode equal) and encode determinism/fixpoint. Boundary classes (int widths, string lengths, batch sizes at every "
-        "position, sharing, cycles, host objects) are forced by the generator and counted in the evidence; a pickler that allocates its arguments per call under forced garbage collections checks that sharing is by value identity, not by address.",
+        "position, sharing, cycles, host objects) are forced by the generator and counted in the evidence; a pickler that allocates its arguments per call under forced garbage collections checks that sharing is by value identity, not by address. Strings include the codec's own vocabulary (module and class names of the host picklers, alone and joined).",
    note="Trusts the harness' Iso relation and starlark.Equal; sizes <= 3002 elements, strings <= 65537 bytes; cycles through a host object's argument tuple are outside the generator (C08 covers recursion)."),
  "C08": dict(engine="projsim", level="exploration", section="4 C08", technique="grammar-based property testing (rapid) in child processes: terminates-without-crash oracle, determinism across processes, metamorphic change detection",
    text="BUILD files generated from a grammar of value and function kinds (recursion, mutual recursion, closures, defaults, nested defs, big and cyclic data, "
         "predeclared values) are built in fresh child processes with a 64 MB stack cap: the first build must exit normally without an environment error, a "
-        "second process must evaluate nothing (also on a copy of the project at another path), and a third must re-evaluate the target exactly when a referenced item was mutated (constants, code, defaults, captured values, parameter lists, rebound builtins).",
+        "second process must evaluate nothing (also on a copy of the project at another path), and a third must re-evaluate the target exactly when a referenced item was mutated (constants, code, defaults, captured values, parameter lists, rebound builtins). Item kinds include globals bound to methods of values (mutation: another receiver) and values of other kinds (ranges, the views returned by string and bytes methods; mutation: another value, or the same elements as another kind), and integer alias pairs (v and v - 2^64).",
    note="Programs are bounded by the grammar (<= ~60 lines); the os/sh/json modules of the CLI are not injected in the child processes."),
  "C09": dict(engine="cosched", level="exploration", section="4 C09", technique="schedule exploration (rapid) over configurations: limits 1,2,3,4,16 via CPU affinity, invariant on a harness counter of executing targets",
    text="Shards run under taskset with 1,2,3,4 and 16 CPUs (the runner's limit is runtime.NumCPU); graphs are biased to fans wider than the limit. The harness "
@@ -60,21 +60,21 @@ CHECKS = {
  "C20": dict(engine="cosched", level="exploration", section="4 C20", technique="schedule exploration (rapid): generated caller/key/outcome patterns x generated schedules on the cooperative scheduler over the real Cache.once",
    text="A real Cache value (obtained through Project.REPLEnv) is called by 2-6 goroutines over 1-3 keys with generated failing/succeeding callables while the "
         "cooperative scheduler owns once's scheduling points (or delays are injected). Oracle: one successful computation per key, identical value for all "
-        "callers, failed calls cache nothing, no deadlock.",
+        "callers, failed calls cache nothing, no deadlock. Caches are pre-filled with 0-1024 other keys (around powers of two) before the callers start.",
    note="Windows without a scheduling point are reached only by delay injection and -race (thorough)."),
  "C10": dict(engine="mvssim", level="exploration", section="4 C10", technique="property-based testing (rapid): differential against a reference MVS (reachability + max) plus metamorphic cache/order variations",
    text="Generated universes (diamonds, cycles, several majors, pre-releases) and root requirement sets are resolved by mvs.BuildList and by an independent "
-        "BFS/maximum reference; the answer must be identical with warm memo, warm disk cache, cold cache and all requirement names renamed, and after a transient fetch failure a list returned by the same resolver must still be the reference list.",
+        "BFS/maximum reference; the answer must be identical with warm memo, warm disk cache, cold cache and all requirement names renamed, and after a transient fetch failure a list returned by the same resolver must still be the reference list. The harness spells project paths itself (nothing from internal/project), majors include v10, v12, v20 and v100.",
    note="Universes are served by a harness vcs.Repository through a verif-tagged dialer adapter (internal/mvs/export_verif.go); at most 7 projects / 23 tagged versions."),
  "C11": dict(engine="mvssim", level="exploration", section="4 C11", technique="property-based testing (rapid): stateful operation sequences checked against relations over reference build lists",
    text="Sequences of Tidy / UpgradeAll / Get(query) are applied as the CLI does; each step is judged by the statement's relations (build list preserved, "
         "resolved version reached, nothing lowered, downgrade bound, names preserved, no requirement lost to a name collision, idempotence) using an "
-        "independent query resolver and the reference MVS; a watchdog turns a non-returning operation into a violation.",
+        "independent query resolver and the reference MVS; a watchdog turns a non-returning operation into a violation. A commit may carry two version tags of one project; a ref resolves to the highest tag of its commit.",
    note="Prefix and branch queries are only checked with the generic relations (the statement does not define what they resolve to); an error is accepted for a downgrade the reference shows to be unsatisfiable."),
  "C12": dict(engine="pure", level="exploration", section="4 C12", technique="bounded exhaustive enumeration + property-based testing (rapid): print/parse round-trip, canonical grouping, confinement oracle",
    text="All strings over {a,b,:,/,.,@} up to length 6 (quick) / 7 (thorough) and all paths over {a,.,/} up to length 7/8 are enumerated completely; "
         "rapid adds longer strings over a wider alphabet. Oracles: print/re-parse identity, one label per printed form, RelativeTo stability, and resolved "
-        "source/generated paths inside the root (pure and end-to-end through dawn.Load).",
+        "source/generated paths inside the root (pure and end-to-end through dawn.Load). After every accepted parse the label is edited in place the way dawn's own callers do; the same text must then parse to the label recorded before.",
    note="Exhaustive only within the stated alphabet and length bound; confinement is judged by filepath.Rel against the project root."),
  "C13": dict(engine="projsim", level="exploration", section="4 C13", technique="model-based property testing (rapid): dry runs inserted into generated histories, differential against a real build of a full copy and against the same history without dry runs",
    text="Each dry run must leave the execution log, the tree and .dawn/build byte-identical (hash after Run == hash after Load) and must announce exactly the "
@@ -84,11 +84,11 @@ CHECKS = {
  "C14": dict(engine="projsim", level="exploration", section="4 C14", technique="model-based property testing (rapid): twin histories with/without garbage collection, plus invariants over the record directory after each collection",
    text="Histories with target/source additions and removals are run twice, with and without collections (full-load and index-preferring styles, strays "
         "planted in temp/). Executed bodies must agree build by build; after a collection live records are byte-identical, dead records gone (full style), "
-        "temp/ empty, nothing outside .dawn/build touched.",
+        "temp/ empty, nothing outside .dawn/build touched. File and directory names may contain + % space & = , ~ $ and non-ASCII letters.",
    note="A removed label is never re-created (the property's own quantifier); the removal clause is checked for full-load collections only."),
  "C15": dict(engine="starval", level="exploration", section="4 C15", technique="structure-aware mutation fuzzing (rapid) + coverage-guided native fuzzing (go test -fuzz) with a value-or-error oracle",
    text="Mutated valid encodings (values and real function environments), opcode soup and every truncation of the environment seeds are decoded with the "
-        "generic, the dawn environment and no unpickler; every program of <=3 opcode atoms is enumerated; thorough adds a native coverage-guided campaign. Oracle: value xor error, well-formed value, no panic, no hang. Corrupted records of generated projects are loaded and built in child processes (fresh load, or watch session: corrupt under a loaded Project, Reload twice, Run): error reported or stale target rebuilt, never a crash or 'up to date'.",
+        "generic, the dawn environment and no unpickler; every program of <=3 opcode atoms is enumerated; thorough adds a native coverage-guided campaign. Oracle: value xor error, well-formed value, no panic, no hang. Corrupted records of generated projects are loaded and built in child processes (fresh load, or watch session: corrupt under a loaded Project, Reload twice, Run): error reported or stale target rebuilt, never a crash or 'up to date'. Records are also restructured as values: parts added, removed, retyped, environments that contain themselves; hashable doubling DAGs appear as dict keys and set elements.",
    note="Inputs <= 4 KiB; declared 4-byte lengths larger than the input are excluded by an independent framing walker, as the statement allows; native fuzzing is not seed-reproducible (crashers become replay files)."),
  "C16": dict(engine="starval", level="exploration", section="4 C16", technique="property-based testing (rapid): reconstruction oracle over generated value pairs",
    text="Generated pairs (new derived from old by edits, or independent) are diffed; the oracle rebuilds both sequences from the edit list by position, checks "
@@ -96,15 +96,15 @@ CHECKS = {
    note="Trusts starlark.Equal as the equality notion; acyclic values; lengths <= 3000."),
  "C17": dict(engine="pure", level="exploration", section="4 C17", technique="property-based testing (rapid): differential against an independent recursive glob matcher, plus end-to-end glob()/os.glob/ignore on generated trees",
    text="Pattern lists (mostly 2+ patterns) and paths derived from the patterns (including prefix/suffix extensions) are compared with a reference matcher "
-        "written from the statement; generated file trees check glob(), os.glob and the ignore list end to end.",
+        "written from the statement; generated file trees check glob(), os.glob and the ignore list end to end. Atoms include digits, commas and text that is regexp syntax when unquoted ({2}, {1,2}, (?i), .*, a+).",
    note="Unescaped [ and ], newlines and invalid UTF-8 are outside the domain; empty list is only asked about non-empty paths."),
  "C18": dict(engine="projsim", level="exploration", section="4 C18", technique="model-based property testing (rapid): event-grammar and output-line oracle over generated histories with parallel targets, plus a reference model of the line writer under generated chunkings",
    text="The real line writer is driven by generated Write/Flush rounds against a split-by-newline model; generated projects with printing and chunk-writing "
         "bodies, failing bodies, missing and cyclic dependencies, dry runs and repeated runs of one loaded project are built and each label's event sequence, "
-        "printed lines, ordering against dependencies and RunDone are checked.",
+        "printed lines, ordering against dependencies and RunDone are checked. Dependencies may spell the bare label of an existing package next to its default target.",
    note="The CLI renderers (package main) are not executed; interleavings of parallel targets are whatever the real scheduler produces on 16 cores."),
  "C19": dict(engine="pure", level="exploration", section="4 C19", technique="property-based testing (rapid): write/load round-trip and re-write byte equality",
-   text="Generated configurations with hostile strings and keys are written, loaded, compared, re-written (byte equality) and pushed through a get/tidy-style rewrite.",
+   text="Generated configurations with hostile strings and keys are written, loaded, compared, re-written (byte equality) and pushed through a get/tidy-style rewrite. One case in 250 is a large file (up to 25000 requirements, ignore patterns up to 1.2 MB).",
    note="Strings are valid UTF-8; requirement paths clean, versions canonical semver (the property's stated domain)."),
 }
 
